@@ -121,13 +121,34 @@ def _window(file, win):
     return np.ascontiguousarray(sk * 255)
 
 
+def _framed_window(file, win):
+    """A rectangular cut closed by a one-pixel frame.  Lines grazing the frame enclose micro-regions
+    of a few pixels: these are the 'triangles in the middle' the parser's inner-triangle removal is
+    written for (that code is reached by no shipped image)."""
+    a = _load(file)
+    fx, fy, size = win
+    H, W = a.shape
+    h = min(size, H)
+    w = min(size, W)
+    y0 = int(fy * (H - h))
+    x0 = int(fx * (W - w))
+    b = a[y0:y0 + h, x0:x0 + w].copy()
+    b[0, :] = 255
+    b[-1, :] = 255
+    b[:, 0] = 255
+    b[:, -1] = 255
+    return b
+
+
 def image_bytes(inp):
     from PIL import Image
     if inp["kind"] == "raster":
         a = raster_array(inp)
     else:
         a = _load(inp["file"])
-        if inp.get("window"):
+        if inp.get("window") and inp.get("framed"):
+            a = _framed_window(inp["file"], inp["window"])
+        elif inp.get("window"):
             a = _window(inp["file"], inp["window"])
         a = _sym(a, inp.get("sym", 0))
     pad = inp.get("pad", 0) + 2
